@@ -65,6 +65,8 @@ def component_ops(ctx: Ctx, table: list, rng: random.Random) -> list[dict]:
                 else field_chars(row, "bank_code", rng, nb)
             branch = field_chars(row, "branch_code", rng, nr) if wr else "".join(rng.choice("0123456789") for _ in range(nr))
             acct = field_chars(row, "account_code", rng, na)
+            if not wr and mode in (1, 5):      # a branch code where the country has no branch field: too long by definition
+                branch = rng.choice(["1", "07", "0418"])
             if mode == 6:       # white space and lower case inside components
                 bank = " ".join(bank).lower() if bank else bank
                 acct = acct[:1] + " \t" + acct[1:].lower()
